@@ -498,3 +498,80 @@ def failed_fanout_torn_down(chk, ctx):
     term = [c for c in body_nodes(he) if isinstance(c, ast.Call) and callname(c) == "handle_terminal_state"]
     chk.ob("C06.R6", "handle_error: an unhandled failure ends the execution through handle_terminal_state", bool(term), "", key="StateEngine.notify.handle_error | no terminal arm", where=he.where(),
            message="")
+
+
+# ---------------------------------------------------------------------------------------------------------------------
+# C06.R7 / R8 / R9 (round 5): three structural causes of "a sibling makes further progress after the fan-out failed", each reported with a
+# reproduction by an independent sub-agent on the reviewed tree (design-notes/repro/agents-r5/)
+def deferred_delegates_cancellable(chk, ctx):
+    """C06.R7: a state whose work is deferred by a timer (the RetryTimeout delay of Task / Parallel / Map) can be stopped when its fan-out
+    fails: the timer is registered with a canceller, or the delegate re-checks the termination gate when it finally runs."""
+    se = ctx.mod("state_engine")
+    nf = se.func("StateEngine.notify")
+    n = 0
+    for name in ("asl_state_Task", "asl_state_Parallel", "asl_state_Map"):
+        f = nf.children.get(name)
+        if f is None:
+            raise AnalysisError("anchor not found: %s" % name)
+        for c in body_nodes(f):
+            if not (isinstance(c, ast.Call) and callname(c) == "self.event_dispatcher.set_timeout" and c.args and isinstance(c.args[0], ast.Name)):
+                continue
+            n += 1
+            deleg = nf.children.get(c.args[0].id)
+            st = enclosing_stmt(se, c)
+            bound = isinstance(st, ast.Assign)      # the timer id is kept
+            cancellable = bound and any(isinstance(x, ast.Call) and last(callname(x)).startswith("set_") and last(callname(x)).endswith("_canceller") for x in body_nodes(f))
+            rechecks = deleg is not None and any(isinstance(x, ast.Call) and last(callname(x)) == "branch_has_terminated" for x in body_nodes(deleg))
+            chk.ob("C06.R7", "%s: the deferred %s can be stopped when its fan-out fails" % (name, c.args[0].id), cancellable or rechecks, "",
+                   key="StateEngine.notify.%s | %s is armed with set_timeout, the timer id is dropped, no canceller is registered and the delegate does not re-check termination" % (name, c.args[0].id),
+                   where=se.line(c),
+                   message="while the state waits out its RetryTimeout a sibling's failure cannot stop it: after the Parallel/Map (or the execution) has failed the timer fires, the delegate "
+                           "sends its request / fans out and appends history")
+    chk.floor("C06.R7", n, 3, "deferred state delegates")
+
+
+def gate_walks_whole_stack(chk, ctx):
+    """C06.R8: an event of a branch nested at any depth below a failed fan-out is dropped: the termination gate consults every level of the
+    Branch stack, not only the innermost two"""
+    se = ctx.mod("state_engine")
+    g = se.func("StateEngine.branch_has_terminated")
+    stack_names = {t.id for s in body_nodes(g) if isinstance(s, ast.Assign) and "['Branch']" in norm(s.value) for t in s.targets if isinstance(t, ast.Name)}
+    loops = [l for l in body_nodes(g) if isinstance(l, (ast.For, ast.While)) and any(isinstance(x, ast.Name) and x.id in stack_names for x in ast.walk(l.iter if isinstance(l, ast.For) else l.test))]
+    fixed = sorted({norm(x) for x in body_nodes(g) if isinstance(x, ast.Subscript) and isinstance(x.value, ast.Name) and x.value.id in stack_names
+                    and isinstance(x.slice, ast.UnaryOp) and isinstance(x.slice.operand, ast.Constant)})
+    chk.ob("C06.R8", "the termination gate consults every level of the Branch stack", bool(loops), "levels consulted: %s" % fixed,
+           key="StateEngine.branch_has_terminated | only the levels %s of the Branch stack are consulted" % fixed, where=g.where(),
+           message="a queued event of a branch nested two or more levels below the failed Parallel/Map is not recognised as terminated (intermediate levels are only marked lazily, by the "
+                   "first straggler of that level): it runs on, appends history after the terminal event and issues requests")
+
+
+def gate_index_default(chk, ctx):
+    """C05.R11 / C03: the gate never marks a slot for an event that has no slot: a Map re-entry record carries no Index, and defaulting it to 0
+    overwrites iteration 0's result and marks a range of iterations that were never started"""
+    se = ctx.mod("state_engine")
+    g = se.func("StateEngine.branch_has_terminated")
+    dflt = [c for c in body_nodes(g) if isinstance(c, ast.Call) and isinstance(c.func, ast.Attribute) and c.func.attr == "get" and c.args and const(c.args[0]) == "Index" and len(c.args) == 2]
+    guarded = any(isinstance(i, ast.If) and "'Index'" in norm(i.test) for i in body_nodes(g))
+    chk.ob("C05.R11", "the termination gate marks a slot only for events that carry an Index", not dflt or guarded, "",
+           key="StateEngine.branch_has_terminated | a missing Index is defaulted (`%s`) and slot 0 is marked" % (norm(dflt[0]) if dflt else ""), where=se.line(dflt[0]) if dflt else g.where(),
+           message="the event that re-enters a Map with MaxConcurrency for its next batch has a Branch record {ID, Range} without Index; when it is dropped by the gate slot 0 is overwritten with "
+                   "__TERMINATED__ and the terminated range is set to a batch that was never launched: check_pending_results then waits for ever for results that cannot arrive and the join "
+                   "state is never released")
+
+
+def teardown_scoped_to_terminated_groups(chk, ctx):
+    """C06.R9: the tear-down cancels the outstanding tasks of the fan-out that failed (and of what is nested in it), not of every fan-out of the
+    execution: a group without a terminated range is not scanned merely because some other group of the execution is terminated"""
+    se = ctx.mod("state_engine")
+    f = se.func("StateEngine.check_pending_results")
+    hit = None
+    for i in body_nodes(f):
+        if isinstance(i, ast.If) and norm(i.test) == "terminated" and i.orelse:
+            txt = [norm(s) for s in i.orelse]
+            if any(t.startswith("start = 0") for t in txt) and any("len(result)" in t for t in txt):
+                hit = i
+    chk.ob("C06.R9", "check_pending_results cancels only within groups that are (nested in) the failed fan-out", hit is None, "",
+           key="StateEngine.check_pending_results | a group without a terminated range is scanned whole (start = 0, end = len(result)) once any group of the execution is terminated",
+           where=se.line(hit) if hit is not None else f.where(),
+           message="when a nested Parallel/Map is retried (its own group is terminated) the scan also cancels the pending tasks of the *enclosing* fan-out's healthy branches: their "
+                   "Task.Terminated marks the outer group terminated, the outer join never completes and the execution never ends")
